@@ -42,9 +42,9 @@ Proof. vm_compute. reflexivity. Qed.
 (* F6: p0 p1 applied; pop p1; refresh p0; git reset --hard <p1>; stg repair *)
 Definition f6_world : world :=
   run ConflictProofs.cex_idf (init_world [1;1;0]%N)
-    [CInit; CNew [112;48]%N 1%N [120]%N; GEdit 0 5%N; CRefresh;
-     CNew [112;49]%N 2%N [121]%N; GEdit 1 7%N; CRefresh;
-     CPop None None false false false; GEdit 0 9%N; CRefresh; GResetHard (TPatch [112;49]%N)].
+    [CInit; CNew [112;48]%N 1%N [120]%N; GEdit 0 5%N; CRefresh None;
+     CNew [112;49]%N 2%N [121]%N; GEdit 1 7%N; CRefresh None;
+     CPop None None false false false; GEdit 0 9%N; CRefresh None; GResetHard (TPatch [112;49]%N)].
 
 Example repair_foreign_below_patch_panics :
   snd (step ConflictProofs.cex_idf f6_world CRepair) = XPanic.
